@@ -393,6 +393,13 @@ func runMutants(repo string, ruleIDs []string, perRule int, seed int) []mutantRe
 				}
 				mutated = strings.Replace(mutated, j.m.Old2, j.m.New2, 1)
 			}
+			if j.m.Old3 != "" {
+				if !strings.Contains(mutated, j.m.Old3) {
+					res.Status, res.Detail = "skipped", "third anchor text not present in "+j.m.File
+					return
+				}
+				mutated = strings.Replace(mutated, j.m.Old3, j.m.New3, 1)
+			}
 			mp, err := core.Load(repo, map[string][]byte{file: []byte(mutated)})
 			if err != nil {
 				res.Status, res.Detail = "skipped", "mutant does not load: "+firstLine(err.Error())
